@@ -56,7 +56,7 @@ T = {
          "held on explored intervals/latencies: silent peer dropped < 3 intervals after last answered ping, responsive peer never dropped, monitoring stops/resumes with the connection; recorded finding: the Leader drops a responsive peer while its own application has paused reading",
          "Noise stand-in; virtual time", "3/C16"),
  "C17": ("fault_enumeration", "runtime monitoring: close() swept over every step of dilation baselines; network-monitor leak oracle + OldPeerCannotDilateError oracle",
-         "held for close at every swept step: close fires, no listener/pending connect/live connection/timer left; incapable peer reported",
+         "held for close at every swept step: close fires, no listener/pending connect/live connection/timer left; incapable peer reported; recorded finding: close() with unsent data while the peer application has paused reading waits for the peer (known_findings.json)",
          "Noise stand-in", "3/C17"),
  "C18": ("exploration", "runtime monitoring: event-order oracle on delegate callbacks / Deferred firing order under reordering servers and reconnects",
          "held on explored schedules: each event at most once, causal order, no get_* hangs after close",
